@@ -358,6 +358,8 @@ type parentCfg struct {
 	outdir   string
 	watchdog time.Duration
 	env      []string
+
+	confirmedDeaths int
 }
 
 func (pc *parentCfg) spawn(k, from, only int) (*exec.Cmd, string, error) {
@@ -436,6 +438,19 @@ func (pc *parentCfg) runPhase(m *Merged) {
 	remaining := pc.nprocs
 	for remaining > 0 {
 		time.Sleep(100 * time.Millisecond)
+		if pc.confirmedDeaths >= 3 {
+			// the violation is established (three cases that kill or hang the process, each confirmed alone):
+			// stop the phase instead of paying the watchdog for every further case
+			for _, ps := range procs {
+				if !ps.done {
+					ps.cmd.Process.Kill()
+					<-ps.exited
+					ps.done = true
+				}
+			}
+			m.Inconclusive = append(m.Inconclusive, "phase stopped early after 3 confirmed process-fatal or hanging cases; the remaining cases were not run")
+			return
+		}
 		for _, ps := range procs {
 			if ps.done {
 				continue
@@ -518,10 +533,12 @@ func (pc *parentCfg) handleDeath(ps *procState, idx int64, how, diag string, m *
 	case res == "ok":
 		m.Inconclusive = append(m.Inconclusive, fmt.Sprintf("case %d: worker %s but the case ran clean alone (%s)", idx, how, firstLines(diag, 2)))
 	case res == "hang":
+		pc.confirmedDeaths++
 		m.Viol = append(m.Viol, Violation{Sig: "hang/no progress within watchdog", Case: int(idx), Phase: pc.phase,
 			Detail: fmt.Sprintf("case %d made no progress for %v, twice (in its shard and alone).\n%s", idx, pc.watchdog, diag2)})
 		m.SigCount["hang/no progress within watchdog"]++
 	default:
+		pc.confirmedDeaths++
 		sig := "fatal/" + fatalSig(diag2)
 		m.Viol = append(m.Viol, Violation{Sig: sig, Case: int(idx), Phase: pc.phase,
 			Detail: fmt.Sprintf("case %d kills the process (reproduced alone in a fresh process).\n%s", idx, diag2)})
